@@ -1,5 +1,7 @@
 //! One entry point per property.
 
+pub mod c06;
+pub mod c10;
 pub mod c12;
 pub mod c20;
 pub mod histprops;
@@ -36,6 +38,11 @@ pub fn props_of(class: Class) -> &'static [&'static str] {
 /// The property to report a failure under when the check for `running` found it.
 pub fn report_as(running: &str, class: Class) -> String {
     let ps = props_of(class);
+    // composite properties: their statement covers everything their check compares
+    // (HTTP == store operation; import target == source; content; isolation)
+    if ["C06", "C10", "C12", "C13", "C20"].contains(&running) && !matches!(class, Class::Panic) {
+        return running.to_string();
+    }
     if ps.contains(&running) {
         running.to_string()
     } else {
